@@ -203,7 +203,12 @@ func run(tapeJSON json.RawMessage, res *core.Result) {
 	var cl *client.Client
 	if tp.Cred == "keytab" {
 		var kt *keytab.Keytab
-		kt, _, err = gk.UserKeytab(sim, "alice")
+		if tp.MergedKt != 0 {
+			kt, _, err = gk.UserKeytabMerged(sim, "alice", uint64(tp.MergedKt))
+			res.Probes["keytab-shared-with-other-principals-or-older-keys"]++
+		} else {
+			kt, _, err = gk.UserKeytab(sim, "alice")
+		}
 		if err != nil {
 			res.Verdict, res.Harness = "harness-error", "keytab: "+err.Error()
 			return
